@@ -11,8 +11,10 @@ Record field := {
   f_ty : ty;
   f_skip_ser : bool;        (* #[ssz(skip_serializing)] *)
   f_skip_de : bool;         (* #[ssz(skip_deserializing)] *)
-  f_with : bool;            (* #[ssz(with = "module")], module made by four_byte_option_impl!: the
-                               field has type Option<f_ty> and is coded by the legacy module *)
+  f_with : option ty;       (* #[ssz(with = "module")]: the field is coded by the module's functions; the
+                               schema the module implements is given (a four_byte_option_impl! module
+                               for Option<T> implements TLegacyOpt T; a fixed-size custom codec
+                               implements whatever fixed-size schema it writes) *)
   f_nattrs : nat            (* number of #[ssz(..)] attributes on the field *)
 }.
 
@@ -23,7 +25,7 @@ Inductive defn :=
 | DStruct (enum_attr : bool) (b : sbeh) (named : bool) (fs : list field)
 | DEnum (struct_attr : bool) (b : ebeh) (vs : list (list ty)).
 
-Definition field_schema (f : field) : ty := if f_with f then TLegacyOpt (f_ty f) else f_ty f.
+Definition field_schema (f : field) : ty := match f_with f with Some s => s | None => f_ty f end.
 
 (** [parse_ssz_fields]: more than one ssz attribute on a field is a panic. *)
 Definition attrs_ok (fs : list field) : bool := forallb (fun f => Nat.leb (f_nattrs f) 1) fs.
